@@ -1018,12 +1018,16 @@ def _both_sides_reach(body, g, bb):
     return bb in body.reach_from(tr) and bb in body.reach_from(fl)
 
 
-def upper_guard(dom, ex, body=None, bb=None):
-    """a dominating ordering comparison that can bound `ex` from above (or the Option it was unwrapped from)"""
+def upper_guard(dom, ex, body=None, bb=None, allow_discr=True):
+    """a dominating ordering comparison that can bound `ex` from above (or the Option it was unwrapped from).
+    `allow_discr=False`: a variant test (`try_from(x)` is Ok, `checked_add(..)` is Some) only says that the tested value fits its
+    own type - it bounds nothing in a *further* addition or multiplication of the payload"""
     ls = leaves(ex, opaque=("max",))
     if not ls:
         return None
     for g in dom:
+        if g.kind == "discr" and not allow_discr and not re.match(r"^discr\((\(?\*?&?(mut\()?)*(\w+::)*Iterator::next\(", g.text or ""):
+            continue        # (the Some test of `iterator.next()` is the loop bound of its payload and stays a guard)
         if g.kind == "cmp" and g.direct and body is not None and g.op in ("Lt", "Le", "Gt", "Ge"):
             side = _side(body, g, bb)
             if side is not None:
@@ -1051,6 +1055,30 @@ def upper_guard(dom, ex, body=None, bb=None):
                     continue      # `x > 0`, `x >= 1`: lower-bound / emptiness tests
                 return g
     return None
+
+
+def guard_max(body, g, bb, ex):
+    """largest value the guard `g` leaves for `ex` at block bb when `ex` is the compared value itself and the other side is a
+    constant; None when the guard has another shape"""
+    if g.kind != "cmp" or not g.direct or g.op not in ("Lt", "Le", "Gt", "Ge"):
+        return None
+    ls = leaves(F.strip_casts(ex))
+    e = F.strip_casts(ex)
+    if e[0] in ("bin", "un", "phi"):
+        return None          # an expression over the compared value: no exact reading
+    side = _side(body, g, bb)
+    if side is None:
+        return None
+    if g.L & ls and g.Rc is not None:
+        c, left = g.Rc, True
+    elif g.R & ls and g.Lc is not None:
+        c, left = g.Lc, False
+    else:
+        return None
+    op = g.op if left else {"Lt": "Gt", "Le": "Ge", "Gt": "Lt", "Ge": "Le"}[g.op]      # read as `x op c`
+    if side:        # comparison true on the way to bb
+        return {"Lt": c - 1, "Le": c}.get(op)
+    return {"Gt": c, "Ge": c - 1}.get(op)
 
 
 def sub_guard(dom, a, b):
@@ -1137,6 +1165,12 @@ def discharge(T, s, guards_cache):
             if bits and 0 <= bi[0] and bi[1] < bits:
                 return ("D2", "shift amount range %s below the width of %s" % (bi, lty))
             gd = upper_guard(dom, b, body, s.bb)
+            if gd is not None and bits:
+                # a shift needs more than *some* upper bound: when the amount itself is compared with a constant, that constant
+                # must keep it below the width (`if n > 64 { return Err }` still admits `x << 64`)
+                mx = guard_max(body, gd, s.bb, b)
+                if mx is not None and mx >= bits:
+                    return None
             return ("D1", "dominating comparison `%s`" % gd.text) if gd else None
         if op == "Sub":
             gd = sub_guard(dom, a, b)
@@ -1144,7 +1178,7 @@ def discharge(T, s, guards_cache):
         need = [e for e, t in ((a, ta), (b, tb)) if t]
         got = []
         for e in need:
-            gd = upper_guard(dom, e, body, s.bb)
+            gd = upper_guard(dom, e, body, s.bb, allow_discr=False)
             if gd is not None:
                 got.append("D1 dominating comparison `%s`" % gd.text)
                 continue
